@@ -501,7 +501,7 @@ def _strings_of(v):
 intern_pool(STRS + KEYS + TYPS + list(_strings_of(REG_EXTRAS)) + list(_strings_of(FREE_EXTRAS)) +
             ["alg", "enc", "typ", "kid", "JWT", "p2c", "p2s", "epk", "iv", "tag", "kty", "crv", "x", "y", "EC", "P-256",
              "1700000000", "2030-01-01", "admin", "alice", "JWT2", "zip", "DEF", "crit", "apu", "apv", "QWxpY2U", "Qm9i", "Qm9iMg",
-             "8J-YgA", "cty", "jti", "pad"])
+             "8J-YgA", "cty", "jti", "pad", "A192CBC-HS384", "A256CBC-HS512", "A256GCM", "A128CBC-HS256", "dir", "role", "guest"])
 
 
 def gen_header(rng, base, kids, form):
@@ -837,7 +837,7 @@ def run(ctx):
             "datetime_claims": 0, "contract_points_json": 0, "contract_points_transport": 0,
             "per_encoder_cls": {}, "per_decoder_cls": {}, "per_option_mode": {}, "positional_calls": 0,
             "decoder_made_non_object": 0, "foreign_object_claims": 0,
-            "per_decode_key_form": {}, "keyset_no_matching_kid": 0, "key_form_pairs": 0, "zip_header": 0,
+            "per_decode_key_form": {}, "tamper_fault_classes": {}, "keyset_no_matching_kid": 0, "key_form_pairs": 0, "zip_header": 0,
             "jwe_header_members_matrix": 0}
 
     def add(term, m):
@@ -861,7 +861,7 @@ def run(ctx):
             return False
 
     # ------------------------------------------------------------ one jwt.decode call, checked in every respect
-    def checked_decode(tok, key, opts, dec, tname, what, payload_known=None, expect_transport_ok=None, rp=None, value=None):
+    def checked_decode(tok, key, opts, dec, tname, what, payload_known=None, expect_transport_ok=None, rp=None, value=None, forged=False):
         """Runs jwt.decode(tok, key, <opts>, decoder_cls) with recording, emits the CDec case and applies the
         direct oracle:  transport ok and the decoder's own result is a dict  ->  Token with exactly that dict;
         transport ok otherwise -> InvalidPayloadError;  transport failed -> that error (never InvalidPayloadError)."""
@@ -895,8 +895,18 @@ def run(ctx):
             wire_term = "None" if wire is None else "(Some %s)" % c_hdr(wire)
         except TypeError:
             wire_term = "None"
-        add("CDec %s %s %s %s %s %s %s" % (c_blob(tok), opts.targs(), c_oN(dec_id), tr_term, loads_term, c_res(d, tok_term), wire_term),
+        add("CDec %s %s %s %s %s %s %s" % (c_blob(tok), opts.targs(), c_oN(dec_id), tr_term, loads_term, c_res(d, tok_term), wire_term) + " " + c_bool(forged),
             ("decode-" + what, tname, "decoder_cls=%s" % dec_id, "mode=%s" % opts.mode))
+        # ---- direct: a forged token never yields claims (and is refused by the transport, not by the payload parser)
+        if forged and (d[0] == "ok" or (drec is not None and drec["out"][0] == "ok")):
+            ctx.violation({"kind": "tampered-token-accepted" if d[0] == "ok" else "payload-parsed-before-integrity",
+                           "transport_kind": kind},
+                          "jwt.decode of a forged %s token (%s; decoder_cls #%s, %s) %s - decoding must return only after the integrity "
+                          "check of the transport passed" % (
+                              tname, what, dec_id, opts.mode,
+                              ("returned claims %r" % (d[1].claims,)) if d[0] == "ok" else
+                              ("raised %r after the transport ACCEPTED the token and its payload was parsed" % (d[1],))), rp)
+            return d, drec, own
         # ---- direct: the returned header is the header that is in the token, always
         if d[0] == "ok" and not (isinstance(wire, dict) and isinstance(d[1].header, dict) and
                                  list(d[1].header.keys()) == list(wire.keys()) and json_equal_hdr(d[1].header, wire)):
@@ -1382,61 +1392,161 @@ def run(ctx):
             for dec in (DECODERS[0], DECODERS[1 + j % (len(DECODERS) - 1)]):
                 one_payload(tr_, p, "ambiguous", dec)
 
-    # ---------------------------------------------------------------- integrity first: tampered tokens, wrong keys
-    ALPHA = "ABCDEFGHIJKLMNOPQRSTUVWXYZabcdefghijklmnopqrstuvwxyz0123456789-_"
+    # ---------------------------------------------------------------- integrity first: the tamper stream
+    # Every fault is made on the decoded octets of a segment and re-encoded canonically, so each forged
+    # token really differs from the genuine one in an authenticated octet (or has a wrong-length tag /
+    # signature / IV, or is presented with another key): jwt.decode must raise, never return claims.
+    def seg_dec(x):
+        return base64.urlsafe_b64decode(x + "=" * (-len(x) % 4))
 
-    def other_char(ch):
-        return ALPHA[(ALPHA.index(ch) + 1 + rng.randrange(62)) % 64]
+    def seg_enc(b):
+        return b64u(b).decode("ascii")
 
-    def tamper(tok, kind):
-        parts = tok.split(".")
+    def flip(b, i):
+        i %= len(b)
+        return b[:i] + bytes([b[i] ^ (1 << rng.randrange(8))]) + b[i + 1:]
+
+    def with_seg(parts, idx, b):
+        q = list(parts)
+        q[idx] = seg_enc(b)
+        return ".".join(q)
+
+    def rehead(parts, **changes):
+        hd = json.loads(seg_dec(parts[0]))
+        hd.update(changes)
+        q = list(parts)
+        q[0] = seg_enc(json.dumps(hd, separators=(",", ":")).encode())
+        return ".".join(q)
+
+    ALG_SWAP = {"HS256": ["HS384", "none"], "HS384": ["HS256"], "HS512": ["HS256"], "ES256": ["ES384", "HS256"], "EdDSA": ["ES256"],
+                "RS256": ["PS256", "RS384", "HS256"]}
+    ENC_SWAP = {"A128GCM": "A128CBC-HS256", "A256GCM": "A128GCM", "A128CBC-HS256": "A128GCM", "A192CBC-HS384": "A128CBC-HS256",
+                "A256CBC-HS512": "A128CBC-HS256"}
+
+    def faults(tok, other, kind, full):
+        """-> [(fault name, forged token)]; other: a genuine token of the same key and algorithms with another payload"""
+        parts, oparts = tok.split("."), other.split(".")
+        raw = [seg_dec(x) for x in parts]
         out = []
         if kind == "jws":
-            sig = parts[2]
-            out.append(("signature", ".".join([parts[0], parts[1], other_char(sig[0]) + sig[1:]])))
-            out.append(("signature-truncated", ".".join([parts[0], parts[1], sig[:-4]])))
-            out.append(("signature-empty", ".".join([parts[0], parts[1], ""])))
+            h, p, sg = raw
+            out.append(("signature bit flip (first octet)", with_seg(parts, 2, flip(sg, 0))))
+            out.append(("signature truncated by one octet", with_seg(parts, 2, sg[:-1])))
+            out.append(("signature empty", with_seg(parts, 2, b"")))
+            out.append(("signature of another token", with_seg(parts, 2, seg_dec(oparts[2]))))
             for newp in (b'{"admin":true}', b"[1,2]", b"\xff\xfe", b""):
-                if b64u(newp).decode() != parts[1]:
-                    out.append(("payload-swapped", ".".join([parts[0], b64u(newp).decode(), sig])))
-            hd = json.loads(base64.urlsafe_b64decode(parts[0] + "=" * (-len(parts[0]) % 4)))
-            hd2 = dict(hd, typ="JWT2")
-            out.append(("header-swapped", ".".join([b64u(json.dumps(hd2, separators=(",", ":")).encode()).decode(), parts[1], sig])))
-        else:
-            for idx, name in ((4, "tag"), (3, "ciphertext"), (2, "iv"), (1, "encrypted-key")):
-                seg = parts[idx]
-                if seg:
-                    q = list(parts)
-                    q[idx] = other_char(seg[0]) + seg[1:]
-                    out.append((name, ".".join(q)))
-            hd = json.loads(base64.urlsafe_b64decode(parts[0] + "=" * (-len(parts[0]) % 4)))
-            hd2 = dict(hd, typ="JWT2")
-            q = list(parts)
-            q[0] = b64u(json.dumps(hd2, separators=(",", ":")).encode()).decode()
-            out.append(("header-swapped", ".".join(q)))
+                if newp != p:
+                    out.append(("payload replaced", with_seg(parts, 1, newp)))
+            out.append(("header typ changed", rehead(parts, typ="JWT2")))
+            if full:
+                out.append(("signature bit flip (middle)", with_seg(parts, 2, flip(sg, len(sg) // 2))))
+                out.append(("signature bit flip (last octet)", with_seg(parts, 2, flip(sg, -1))))
+                for k in sorted({1, len(sg) // 2, len(sg) - 2}):
+                    out.append(("signature truncated to %d octets" % k, with_seg(parts, 2, sg[:k])))
+                out.append(("signature extended by a zero octet", with_seg(parts, 2, sg + b"\x00")))
+                out.append(("signature doubled", with_seg(parts, 2, sg + sg)))
+                out.append(("header bit flip", with_seg(parts, 0, flip(h, len(h) // 2))))
+                out.append(("header member added", rehead(parts, cty="x")))
+                if p:
+                    out.append(("payload bit flip (first octet)", with_seg(parts, 1, flip(p, 0))))
+                    out.append(("payload bit flip (last octet)", with_seg(parts, 1, flip(p, -1))))
+                    out.append(("payload truncated", with_seg(parts, 1, p[:-1])))
+                out.append(("payload extended", with_seg(parts, 1, p + b" ")))
+                out.append(("payload of another token", with_seg(parts, 1, seg_dec(oparts[1]))))
+                alg = json.loads(h).get("alg")
+                for a2 in ALG_SWAP.get(alg, []):
+                    out.append(("alg swapped to %s" % a2, rehead(parts, alg=a2)))
+            return out
+        h, ek, iv, ct, tag = raw
+        names = ["protected header", "encrypted key", "iv", "ciphertext", "tag"]
+        out.append(("tag bit flip (first octet)", with_seg(parts, 4, flip(tag, 0))))
+        out.append(("ciphertext bit flip (first octet)", with_seg(parts, 3, flip(ct, 0))))
+        out.append(("iv bit flip (first octet)", with_seg(parts, 2, flip(iv, 0))))
+        out.append(("tag empty", with_seg(parts, 4, b"")))
+        out.append(("tag truncated by one octet", with_seg(parts, 4, tag[:-1])))
+        out.append(("iv bit flip + tag empty", with_seg(with_seg(parts, 2, flip(iv, 0)).split("."), 4, b"")))
+        out.append(("header typ changed", rehead(parts, typ="JWT2")))
+        if ek:
+            out.append(("encrypted key bit flip", with_seg(parts, 1, flip(ek, 0))))
+        if full:
+            for idx in (1, 2, 3, 4):
+                b = raw[idx]
+                if b:
+                    out.append(("%s bit flip (last octet)" % names[idx], with_seg(parts, idx, flip(b, -1))))
+                    out.append(("%s bit flip (middle)" % names[idx], with_seg(parts, idx, flip(b, len(b) // 2))))
+                    out.append(("%s extended by a zero octet" % names[idx], with_seg(parts, idx, b + b"\x00")))
+                    out.append(("%s empty" % names[idx], with_seg(parts, idx, b"")))
+                ob = seg_dec(oparts[idx])
+                if ob != b:
+                    out.append(("%s of another token" % names[idx], with_seg(parts, idx, ob)))
+            for k in range(0, len(tag)):                 # every shorter tag
+                out.append(("tag truncated to %d octets" % k, with_seg(parts, 4, tag[:k])))
+                out.append(("iv bit flip + tag truncated to %d octets" % k,
+                            with_seg(with_seg(parts, 2, flip(iv, k)).split("."), 4, tag[:k])))
+            for k in range(0, len(iv)):                  # every shorter iv
+                out.append(("iv truncated to %d octets" % k, with_seg(parts, 2, iv[:k])))
+            for k in sorted({1, len(ct) // 2, max(len(ct) - 16, 0), len(ct) - 1}):
+                if 0 <= k < len(ct):
+                    out.append(("ciphertext truncated to %d octets" % k, with_seg(parts, 3, ct[:k])))
+            for k in sorted({1, len(ek) // 2, len(ek) - 1}):
+                if 0 <= k < len(ek):
+                    out.append(("encrypted key truncated to %d octets" % k, with_seg(parts, 1, ek[:k])))
+            out.append(("ciphertext block appended", with_seg(parts, 3, ct + ct[-16:])))
+            out.append(("header bit flip", with_seg(parts, 0, flip(h, len(h) // 2))))
+            out.append(("header member added", rehead(parts, cty="x")))
+            enc = json.loads(h).get("enc")
+            if enc in ENC_SWAP:
+                out.append(("enc swapped to %s" % ENC_SWAP[enc], rehead(parts, enc=ENC_SWAP[enc])))
         return out
 
-    sel = [bt for i, bt in enumerate(bad_tokens) if i % 3 == 0 or bt[2] in OBJECTS]
-    if len(sel) > 3000:
-        sel = rng.sample(sel, 3000)
-    nt = 0
-    for tr_, tok, payload in sel:
+    extra_tamper_transports = [
+        ("dir+A128CBC-HS256", "jwe", {"alg": "dir", "enc": "A128CBC-HS256"}, "oct32", ()),
+        ("dir+A192CBC-HS384", "jwe", {"alg": "dir", "enc": "A192CBC-HS384"}, "oct48", ()),
+        ("dir+A256CBC-HS512", "jwe", {"alg": "dir", "enc": "A256CBC-HS512"}, "oct64", ()),
+        ("dir+A256GCM", "jwe", {"alg": "dir", "enc": "A256GCM"}, "oct32", ()),
+    ]
+    nt = [0]
+
+    def run_faults(tr_, tok, other, payload, full):
         tname, kind, base, fam, added = tr_
-        key = W.keys[fam][0]
-        for what, tt in tamper(tok, kind):
-            nt += 1
+        signer = W.keys[fam][0]
+        _, dforms = W.forms(fam)
+        if len(W.keys[fam]) > 1:        # these tokens carry no kid: a multi-key set would refuse them before any integrity check
+            dforms = [f for f in dforms if f not in ("keyset", "callable-keyset")]
+        for what, tt in faults(tok, other, kind, full):
+            if tt == tok:
+                continue
+            nt[0] += 1
             dist["tampered"] += 1
+            bump("tamper_fault_classes", ("jws: " if kind == "jws" else "jwe: ") + "".join(c for c in what if not c.isdigit()))
             ctx.note_case(("tamper", tname, what, tt[-40:]))
-            checked_decode(tt, key, next_opts(tr_), DECODERS[nt % len(DECODERS)], tname, "tampered-" + what,
+            dform = dforms[nt[0] % len(dforms)] if full else "key"
+            dkey = W.decode_key(fam, dform, signer)
+            checked_decode(tt, dkey, next_opts(tr_), DECODERS[nt[0] % len(DECODERS)], tname, "tampered: " + what,
                            rp={"kind": "tamper", "what": what, "token": tt, "original": tok, "payload_hex": payload.hex(),
-                               "jwk": key.as_dict(private=True)})
+                               "jwk": signer.as_dict(private=True), "decode_key_form": dform}, forged=True)
         if len(W.keys[fam]) > 1:
             wrong = W.keys[fam][1]
-            nt += 1
+            nt[0] += 1
             dist["wrong_key"] += 1
             ctx.note_case(("wrongkey", tname, tok[-40:]))
-            checked_decode(tok, wrong, next_opts(tr_), DECODERS[nt % len(DECODERS)], tname, "wrong-key",
-                           rp={"kind": "wrong-key", "token": tok, "payload_hex": payload.hex(), "jwk": wrong.as_dict(private=True)})
+            checked_decode(tok, wrong, next_opts(tr_), DECODERS[nt[0] % len(DECODERS)], tname, "wrong key",
+                           rp={"kind": "wrong-key", "token": tok, "payload_hex": payload.hex(), "jwk": wrong.as_dict(private=True)},
+                           forged=True)
+
+    # the full fault set: every transport (plus dir with every CBC-HS enc and A256GCM), an object and a non-JSON payload
+    for tr_ in list(W.transports) + extra_tamper_transports:
+        key = W.keys[tr_[3]][0]
+        for payload, otherp in ((b'{"role":"guest","sub":"alice"}', b'{"role":"admin","sub":"alice"}'), (b"\xff\xfe not json", b"[1,2]")):
+            if ctx.quick and payload[:1] != b"{" and tr_ in W.transports[1:6] + W.transports[8:]:
+                continue
+            run_faults(tr_, build(tr_, payload, key), build(tr_, otherp, key), payload, True)
+    # a light fault set on tokens of the payload stream
+    sel = [bt for i, bt in enumerate(bad_tokens) if i % 3 == 0 or bt[2] in OBJECTS]
+    if len(sel) > 2000:
+        sel = rng.sample(sel, 2000)
+    for tr_, tok, payload in sel:
+        run_faults(tr_, tok, build(tr_, b'{"x":1}', W.keys[tr_[3]][0]), payload, False)
 
     # ---------------------------------------------------------------- correspondence
     ctx.coverage["rule"] = ("model C09Jwt.jwt_encode/jwt_decode/convert_claims/numericdate evaluated by vm_compute on every recorded "
